@@ -70,7 +70,7 @@ type Block struct {
 
 // ---------- canonical s-expression printing ----------
 
-func hx(b []byte) string { return "x" + hex.EncodeToString(b) }
+func hx(b []byte) string  { return "x" + hex.EncodeToString(b) }
 func hxs(s string) string { return hx([]byte(s)) }
 
 func (t Term) Sx() string {
